@@ -224,7 +224,7 @@ def r5(run, db):
             if any(r["k"] == "upvar" for r in r0):
                 ty = place_ty(db, ch, [1, ["f:%d" % r0[0]["field"]]])
                 run.check(ty == "usize", "returns-index:%s" % ch.id.split("::")[-1], "the wait returns its captured index with the result", "first tuple component is %s" % ty, ch.where(s.get("l")))
-    run.anchor("spawned waits", n, 2)
+    run.anchor("spawned waits", n, 1)      # one per spawn site; both timeout branches may share a site
     # result vector writes
     jn = [c for c in f.calls() if c.matches(r"JoinSet::<T>::join_next$")]
     res_locals = [i for i, l in enumerate(f.locals) if re.match(r"^std::vec::Vec<ractor::rpc::call_result::CallResult<", l["ty"])]
@@ -328,7 +328,7 @@ def r9(run, db):
     sends = [c for c in f.calls() if c.matches(r"ActorRef<TMessage>>::cast$|ActorRef<TMessage>>::send_message$|ActorCell::send_message$")]
     run.anchor("multi_call sends", len(sends), 1, f.where())
     waits = set(a.poll.site for a in awaits(f)) | set(c.site for c in f.calls() if c.matches(r"JoinSet::<T>::spawn\w*$|::spawn$|JoinSet<T>::spawn$"))
-    run.anchor("multi_call waits/spawns", len(waits), 3, f.where())
+    run.anchor("multi_call waits/spawns", len(waits), 2, f.where())     # at least one spawn and the join_next await
     for c in sends:
         edges = [b["break_edge"] for b in try_branches_on(f, c) if b["break_edge"]]
         e2 = nested_variant_edge(f, c, ["Err"])
